@@ -20,7 +20,10 @@ def footprint (f : FnId) (c : Call) : Bytes → Slot → Prop :=
   match f with
   | .changeOwnerAddress | .claimDeveloperRewards | .setUserName => acctFootprint f c
   | .saveKeyValue => skvFootprint c
-  | _ => tokenFootprint c
+  | .setRole | .unSetRole => tokenFootprint true false c          -- balance + role-list namespace … only the role key is written
+  | .nftCreateRoleTransfer => tokenFootprint true true c          -- role list and nonce counter
+  | .nftCreate => tokenFootprint false true c                     -- the new entry and the creator's nonce counter
+  | _ => tokenFootprint false false c                             -- balance entries (and the pause flag) only
 
 /-- FULL (part 2): every built-in function changes only the protocol entries of the tokens named in its input —
     or, for the three account-level functions, only the owner / user-name / developer-reward / balance fields;
